@@ -542,6 +542,13 @@ namespace adept {
 	  iendvec -= (iendvec % Packet<Type>::size);
 	  iendvec += istartvec;
 	}
+#ifdef RJHOGAN_ADEPT_2_VERIF
+	{
+	  int* verif_c = internal::verif_simd_();
+	  verif_c[0] = 3; verif_c[1] = istartvec; verif_c[2] = iendvec;
+	  ++verif_c[4]; verif_c[5] = Packet<Type>::size;
+	}
+#endif
 	do {
 	  i[last] = 0;
 	  rhs.set_location(i, loc);
@@ -550,6 +557,9 @@ namespace adept {
 	    f.accumulate(total, rhs.next_value_contiguous(loc));
 	  }
 	  for ( ; i[last] < iendvec; i[last] += Packet<Type>::size) {
+#ifdef RJHOGAN_ADEPT_2_VERIF
+	    ++internal::verif_simd_()[3];
+#endif
 	    f.accumulate(ptotal, rhs.next_packet(loc));
 	  }
 	  for ( ; i[last] < dims[last]; ++i[last]) {
